@@ -22,8 +22,11 @@ Clauses(ev) ==
   [PhaseAdvancesByTwoPiFrequencyDt |-> ev.on_grid /\ SamePhase(ev.l, G!Advance(left)) /\ SamePhase(ev.r, G!Advance(right)),
    PhasesStayWithinMinusPiPi       |-> ev.l \in (-G!Half)..G!Half /\ ev.r \in (-G!Half)..G!Half,
    PhasesHalfACycleApart           |-> (ev.r - ev.l) % K = G!Half,
-   FootHeightFollowsBezierWithinSwing |-> HeightOK(ev.hl, ev.l) /\ HeightOK(ev.hr, ev.r) /\ ev.hl >= -2 /\ ev.hl <= 10002
-                                          /\ ev.hr >= -2 /\ ev.hr <= 10002]
+   \* total verdicts: the Bezier reference is evaluated only for phases inside the cycle (outside, the range clause has already
+   \* failed and HNum of an arbitrary logged integer would overflow TLC's 32-bit arithmetic); the [0, swing] bound always is
+   FootHeightFollowsBezierWithinSwing |-> /\ ev.hl >= -2 /\ ev.hl <= 10002 /\ ev.hr >= -2 /\ ev.hr <= 10002
+                                          /\ (ev.l \in (-G!Half)..G!Half /\ ev.r \in (-G!Half)..G!Half)
+                                               => (HeightOK(ev.hl, ev.l) /\ HeightOK(ev.hr, ev.r))]
 FailedAt(i) == IF i = 0 THEN {n \in DOMAIN Traces[tid].atoms : ~Traces[tid].atoms[n]}
                ELSE LET c == Clauses(Tr[i]) IN {n \in DOMAIN c : ~c[n]}
 TStep == /\ l >= 0 /\ l <= Len(Tr) /\ FailedAt(l) = {}
